@@ -156,3 +156,12 @@ _p('C23', secs=(20, 300), runs=(100000, 10000000), mix=(4, 8),
     real=_SESS_REAL + ['Session::handle_logon, recover_seqnums, SessionID comparison'], stub=_SESS_STUB + ['peer IP address supplied by SimSock::peerAddress()'], assumptions=_SESS_ASSUME + ['no SessionConfig object (client list and flags are set through LoginParameters as sessionwrapper.hpp does)', 'the Logon MsgSeqNum sent by the peer is always the one the session expects (sequence recovery at logon is C20)'],
     level_text='seeded exploration of logon configurations; oracle: acceptor reaches continuous exactly under the stated conditions and otherwise ends without sending a Logon, echoes HeartBtInt, resets both numbers on ResetSeqNumFlag=Y, uses recovered numbers otherwise; initiator with enforcement ends exactly for non-mirroring CompIDs; SessionID != is the negation of ==',
     level_note='trusted: harness codec and scripted peer')
+
+_p('C25', secs=(30, 480), runs=(100000, 10000000), mix=(4, 8),
+    title='Concurrent senders get unique consecutive sequence numbers',
+    technique='deterministic simulation: 2-8 application threads (real pthreads serialised by the seeded scheduler: random walk, PCT, run-to-block) call send/send_batch on one real session in the threaded or pipelined model while the reader thread answers peer TestRequests and the timer thread sends heartbeats; in a quarter of the runs a second session in the same process does the same; oracle over the parsed wire log and the persister',
+    rule='one evaluation = one seeded world: 2-6 (thorough 2-8) sender tasks with 1-5 (thorough 1-8) calls each (send by pointer, by reference, batch of 2-4), 0-6 concurrent peer TestRequests, HeartBtInt 1 or 30, memory/file persister, short writes/EAGAIN on the socket, optional second session; non-trivial = at least 2 tasks, 3 application messages and 6 task switches; distinct = distinct event-log hash',
+    real=_SESS_REAL + ['FIXWriter::write/write_batch spin lock, FIXWriter::execute writer thread and FastFlow queue (pipelined model)', 'Session::send_process under _con_spl/_per_spl'], stub=_SESS_STUB,
+    assumptions=COMMON_ASSUME + ['pipelined worlds are judged at quiescence and never torn down (FIXWriter::stop() pushes NULL into the FastFlow queue, which asserts); their workers are recycled', 'batch members need not stay adjacent on the wire (the statement does not say so; in the pipelined model a single send can slip between them - counted as an observation)', '"no data race": the serialising scheduler hides races from TSan; unsynchronised accesses are only caught when they change the observable outcome in an explored interleaving (see DESIGN.md section 9)'],
+    level_text='seeded exploration of interleavings at intercepted-call granularity; oracle: socket bytes split into well-formed messages, new messages carry consecutive unique numbers, every application message sent appears exactly once, stored copy == transmitted bytes',
+    level_note='trusted: kernel (lock hand-off model), harness codec; weak-memory behaviour and races without observable effect are out of reach')
